@@ -20,4 +20,5 @@ import (
 	_ "verif/checks/c16"
 	_ "verif/checks/c17"
 	_ "verif/checks/c18"
+	_ "verif/checks/c19"
 )
